@@ -314,8 +314,95 @@ def run(ctx):
         prog = gen_comp.gen_program(ctx.rng, allow_pow=False)
         prog = c03.add_assertions(ctx.rng, prog, n_max=3)
         one_case(ctx, prog)
+    searches_resample_value(ctx)
+
+
+class _HalfRejecting(af.Analysis):
+    """a likelihood that raises the fit exception on part of the space (valid elsewhere, peaked inside it)"""
+
+    def log_likelihood_function(self, instance):
+        if instance.a > 0.62:
+            raise exc.FitException("outside the region where the model can be evaluated")
+        return -0.5 * ((instance.a - 0.4) ** 2 / 0.01 + (instance.b - 1.0) ** 2 / 0.04)
+
+
+def searches_resample_value(ctx):
+    """the figure of merit each *search* builds (its own choice of resample value and sign): what a search receives
+    for a vector that cannot be evaluated is never better, in the direction that search optimises, than what it
+    receives for a vector that can - observed on the fitness objects of real, tiny fits"""
+    import contextlib
+    import io
+    import os
+    import random as pyrandom
+    import vlib
+    from common import scratch_dir
+
+    log = []
+    originals = {}
+
+    def wrap(cls):
+        orig = cls.__call__
+        originals[cls] = orig
+
+        def call(self, parameters, *a, **k):
+            out = orig(self, parameters, *a, **k)
+            try:
+                arr = np.asarray(parameters, dtype=float)
+                rows = arr if arr.ndim == 2 else arr.reshape(1, -1)
+                outs = np.asarray(out, dtype=float).reshape(-1)
+                if len(outs) == len(rows):
+                    for r_, o_ in zip(rows, outs):
+                        log.append((cls.__name__, [float(x) for x in r_], float(o_)))
+            except Exception:  # noqa
+                pass
+            return out
+
+        cls.__call__ = call
+
+    kinds = [("PySwarmsGlobal", dict(n_particles=5, iters=4)), ("LBFGS", dict(maxiter=6)), ("Drawer", dict(total_draws=8)),
+             ("DynestyStatic", dict(nlive=12, maxcall=120)), ("Emcee", dict(nwalkers=6, nsteps=8))]
+    cwd = os.getcwd()
+    wrap(Fitness)
+    wrap(FitnessPySwarms)
+    try:
+        os.chdir(scratch_dir())
+        for kind, kw in kinds:
+            del log[:]
+            model = af.Model(vlib.P2, a=af.UniformPrior(0.0, 1.0), b=af.UniformPrior(0.0, 2.0))
+            pyrandom.seed(ctx.seed + 11)
+            np.random.seed(ctx.seed + 11)
+            try:
+                with contextlib.redirect_stdout(io.StringIO()), contextlib.redirect_stderr(io.StringIO()):
+                    getattr(af, kind)(**kw).fit(model=model, analysis=_HalfRejecting())
+            except Exception as e:  # noqa: what the fit does with these values is not this clause's subject
+                ctx.hit(f"search-fom:{kind}:fit-ended-with-{type(e).__name__}")
+            valid = [(v, o) for _, v, o in log if 0.0 <= v[0] <= 0.62 and 0.0 <= v[1] <= 2.0 and o == o]
+            invalid = [(v, o) for _, v, o in log if v[0] > 0.62 and 0.0 <= v[0] <= 1.0 and 0.0 <= v[1] <= 2.0]
+            ctx.hit(f"search-fom:{kind}:{'observed' if valid and invalid else 'not-both-kinds-seen'}")
+            ctx.evaluations += 1
+            if len(valid) < 2 or not invalid:
+                continue
+            an = _HalfRejecting()
+            lls = [an.log_likelihood_function(vlib.P2(a=v[0], b=v[1])) for v, _ in valid]
+            hi, lo = max(range(len(lls)), key=lls.__getitem__), min(range(len(lls)), key=lls.__getitem__)
+            if lls[hi] == lls[lo] or valid[hi][1] == valid[lo][1]:
+                continue
+            maximises = valid[hi][1] > valid[lo][1]
+            vals = [o for _, o in valid]
+            bad = [(v, o) for v, o in invalid if (o > min(vals) if maximises else o < max(vals)) and not (o != o)]
+            if bad:
+                ctx.fail("C04-search-resample-looks-good",
+                         f"{kind}: a vector whose likelihood raises the fit exception is handed to the search with a figure of merit "
+                         f"better than that of vectors that can be evaluated (the search {'maximises' if maximises else 'minimises'})",
+                         {"label": "search-resample", "search": kind}, {"invalid": bad[:2], "valid_range": [min(vals), max(vals)]})
+    finally:
+        os.chdir(cwd)
+        for cls, orig in originals.items():
+            cls.__call__ = orig
 
 
 def replay(ctx, payload):
     case = payload.get("case") or payload.get("disagreements", [{}])[0].get("case")
+    if case.get("label") == "search-resample":
+        return searches_resample_value(ctx)
     one_case(ctx, case["program"], case.get("spec"), label="replay")
